@@ -96,7 +96,7 @@ def run(prop, tier, seed, replay=None):
         states = 1
     else:
         cases, states = gen_cases(wd)
-    stride = 1 if tier == "thorough" or replay else 2
+    stride = 1
     totals = {}
     evaluations = 0
     classes_bad = {}
